@@ -477,7 +477,7 @@ func applyFault(dir string, r *Real, s Step, tornLen int) error {
 
 // ---------------------------------------------------------------- goroutine-mode replay
 
-const stepTimeout = 60 * time.Second
+const stepTimeout = 300 * time.Second
 
 func runGor(c Case, r *Real, scratch string) (res Result) {
 	res.ID, res.Lookups = c.ID, []Lookup{}
